@@ -75,13 +75,11 @@ void h_tri_edge_equal(void)
 PROPS = {
     "C18": dict(
         level="other",
-        explanation="Only the edge-identity clause is decided (the orientation-insensitive key used to find unique edges and boundary edges). "
-                    "Neighbour lists from unique edges, default boundary status and node areas are not under contract in this session.",
-        assumptions=["std::hash<size_t> is a deterministic function (ghost table)", "std::unordered_map semantics (unique keys up to the equality, "
-                     "insert returns the existing entry) are not modelled: the clauses depending on it are undecided"],
-        undecided=["two nodes are neighbours exactly when they share an edge (needs the unordered_map model + the set_neighbors loops)",
-                   "default fixed-value status exactly on edges belonging to a single triangle",
-                   "node areas sum to the triangles' area (xtensor expression algebra, nonlinear floating point: out of reach)"],
+        explanation="trimesh.py decides the edge-identity clause (the orientation-insensitive key used to find unique edges and boundary edges) and one "
+                    "unique edge of the second loop of set_neighbors; spec/trimesh2.py decides both loops of set_neighbors, the accessors and the status overloads. "
+                    "Node areas are not under contract.",
+        assumptions=["std::hash<size_t> is a deterministic function (ghost table)"],
+        undecided=["node areas sum to the triangles' area (xtensor expression algebra, nonlinear floating point: out of reach)"],
     ),
 }
 
